@@ -139,6 +139,12 @@ TCEnd == /\ Is("cend") /\ cstage = "mid" /\ Ev.ok /\ Snap(CNames) = cv
          /\ cstage' = "init" /\ UNCHANGED <<cv, pv, dv, dstage, cdict, ddict>>
 
 \* decoding a frame naming dictionary fid: accepted iff the decoder holds that dictionary (or the frame names none)
+\* ZSTD_CCtx_setParams: all or nothing - a rejected call (invalid compression parameter, or wrong stage) changes no parameter
+TCSetParams == /\ Is("csetparams")
+               /\ (Ev.bad = 1 => ~Ev.ok) /\ (cstage = "mid" => ~Ev.ok)
+               /\ (~Ev.ok => Snap(CNames) = cv)
+               /\ cv' = Snap(CNames)
+               /\ UNCHANGED <<pv, dv, cstage, dstage, cdict, ddict>>
 TDFrame == /\ Is("dframe") /\ dstage = "init" /\ Snap(DNames) = dv
            \* a frame that names a dictionary decodes iff that dictionary is loaded; a frame that names none (dictIDFlag = 0, or no
            \* dictionary) must decode when the compressor had no dictionary or the decoder holds the same one - without the
@@ -151,7 +157,7 @@ TDFail == /\ Is("dfail") /\ ~Ev.ok /\ Snap(DNames) = dv /\ dstage' = "err" /\ UN
 TEnd == Is("end") /\ UNCHANGED <<cv, pv, dv, cstage, dstage, cdict, ddict>>
 
 TNext == \/ TNew \/ TCSet \/ TPSet \/ TPReset \/ TPApply \/ TDSet \/ TCBounds \/ TDBounds \/ TCReset \/ TDReset
-         \/ TCLoad \/ TDLoad \/ TCFrame \/ TCFail \/ TCBegin \/ TCEnd \/ TDFrame \/ TDBegin \/ TDFail \/ TEnd
+         \/ TCSetParams \/ TCLoad \/ TDLoad \/ TCFrame \/ TCFail \/ TCBegin \/ TCEnd \/ TDFrame \/ TDBegin \/ TDFail \/ TEnd
 
 Track == IF l > TLCGet(1) THEN TLCSet(1, l) ELSE TRUE
 TraceAccepted == IF TLCGet(1) = Len(Tr) + 1 THEN TRUE
